@@ -419,6 +419,8 @@ def fmt_value(I, val, spec, conv=None):
             return format(str(val), spec)
         if isinstance(val, int):
             return format(val, spec)
+        if type(val).__name__ == "RatObj":
+            return format(str(Fraction(val)), spec) if spec else str(Fraction(val))
         if isinstance(val, Fraction):
             if spec and spec[-1] in "fFeEgG":
                 return format(float(val), spec) if False else format_fraction(val, spec)
